@@ -3,6 +3,7 @@
 package props
 
 import (
+	"runtime/debug"
 	"sync"
 	"syscall"
 	"unsafe"
@@ -33,4 +34,50 @@ func farPair(n int) (a, b []decimal.Word, ok bool) {
 	a = unsafe.Slice((*decimal.Word)(unsafe.Pointer(&farMem[0])), farWords)[:n:n]
 	b = unsafe.Slice((*decimal.Word)(unsafe.Pointer(&farMem[1<<32])), farWords)[:n:n]
 	return a, b, true
+}
+
+// Guard pages: a ring of small mappings, each two accessible pages between two inaccessible ones. guardedCopy
+// places a copy of v so that it ends exactly at the upper guard page (atEnd) or starts exactly after the lower one.
+const guardSlots = 8
+
+var (
+	guardOnce sync.Once
+	guardMem  [guardSlots][]byte
+	guardNext int
+	pageSize  = syscall.Getpagesize()
+)
+
+const guardPages = 10 // accessible pages per slot: vectors of up to 5000 words
+
+func guardedCopy(v []decimal.Word, atEnd bool) ([]decimal.Word, bool) {
+	guardOnce.Do(func() {
+		for i := range guardMem {
+			m, err := syscall.Mmap(-1, 0, (guardPages+2)*pageSize, syscall.PROT_READ|syscall.PROT_WRITE, syscall.MAP_PRIVATE|syscall.MAP_ANON)
+			if err != nil {
+				return
+			}
+			if syscall.Mprotect(m[:pageSize], syscall.PROT_NONE) != nil || syscall.Mprotect(m[(guardPages+1)*pageSize:], syscall.PROT_NONE) != nil {
+				return
+			}
+			guardMem[i] = m
+		}
+		// faults in this memory become panics of the faulting goroutine instead of killing the process
+		debug.SetPanicOnFault(true)
+	})
+	m := guardMem[guardNext%guardSlots]
+	if m == nil || len(v)*8 > guardPages*pageSize || len(v) == 0 {
+		return nil, false
+	}
+	guardNext++
+	debug.SetPanicOnFault(true) // per goroutine
+	body := m[pageSize : (guardPages+1)*pageSize]
+	var p unsafe.Pointer
+	if atEnd {
+		p = unsafe.Pointer(&body[len(body)-len(v)*8])
+	} else {
+		p = unsafe.Pointer(&body[0])
+	}
+	g := unsafe.Slice((*decimal.Word)(p), len(v))[:len(v):len(v)]
+	copy(g, v)
+	return g, true
 }
